@@ -96,6 +96,9 @@ class C16Machine(Machine):
         if rng.random() < (0.03 if tier == "quick" else 0.06):
             # rare large table: crosses the 8 KiB text-buffer size and any plausible chunk size
             cfg["large"] = True
+            cfg["n_records"] = rng.choice([6, 12, 17, 33, 40])          # a bigger converter, too
+            cfg["curie_pool"] = cfg["curie_pool"] + tokens.synthetic_curie_prefixes(90)
+            cfg["uri_pool"] = cfg["uri_pool"] + tokens.synthetic_uri_prefixes(90)
             # sizes sit on and next to the usual batch / buffer boundaries
             cfg["n_rows"] = rng.choice([31, 32, 33, 40, 50, 63, 64, 65, 99, 100, 101, 127, 128, 129, 150, 192, 256, 257])
             cfg["max_ops"] = cfg["n_rows"] + 8
@@ -627,28 +630,32 @@ class C16Machine(Machine):
 
         # returned normally
         tolerant = False
-        if first_fail is not None and why in ("blank_row", "oversize_field") and not reader_level:
-            # not a cell that the scalar method rejects: a library that skips blank lines, or that lifts the
-            # csv field limit, may go on - then the rest of the table must still be right
+        structural = why is not None and not why.startswith("scalar_raises")
+        if first_fail is not None and structural:
+            # the first failure is not a cell that the scalar method rejects but a malformed piece of the file
+            # (blank line, row without the chosen column, over-long field, bytes that are not text): the
+            # property does not say that the operation must raise for those. If it goes on, every row that HAS
+            # the chosen cell must still be converted as the scalar method says; a row without it must come
+            # back as it was (a blank line may also be dropped).
+            if reader_level:
+                self.event("no_raise_on_undecodable_bytes_not_judged")
+                return {"ok": True, "not_judged": "undecodable bytes tolerated by the library"}
             tolerant = True
             expected_rows = []
             for i, row in enumerate(rows):
-                if not row:
-                    expected_rows.append(([], None, ""))
-                    continue
                 if len(row) <= col:
-                    tolerant = False
-                    break
+                    expected_rows.append((list(row), None, None))      # (unchanged, no result, no source cell)
+                    continue
                 try:
                     v = scalar(row[col], strict=st, passthrough=pt)
-                except Exception:  # noqa: BLE001
+                except Exception:  # noqa: BLE001 - a later cell that the scalar method rejects: a raise was due
                     tolerant = False
                     break
                 new = list(row)
                 new[col] = v or ""
                 expected_rows.append((new, v, row[col]))
             if tolerant:
-                self.event("no_raise_on_" + why + "_tolerated")
+                self.event("no_raise_on_" + why.split("+")[0] + "_tolerated")
         if first_fail is not None and not tolerant:
             raise Violation(PROP, "missing_raise", site,
                             {"why": why, "first_failing_row": first_fail, "op": _short(op)})
@@ -682,6 +689,7 @@ class C16Machine(Machine):
                         detail.update({"row": i, "got": g, "want": w})
                         break
             raise Violation(PROP, kind, site, detail)
+        expected_rows = [t for t in expected_rows if t[2] is not None]       # rows that have the chosen cell
         changed = any(new[col] != old for new, _, old in expected_rows)
         missing = any(v is None for _, v, _ in expected_rows)
         cells = [cell for row in rows for j, cell in enumerate(row) if j != col] + (list(hdr) if op["header"] else [])
